@@ -9,17 +9,20 @@ CLAIMED = {
                 'convention) every initialisation coefficient, the secular/drag/long-period update, the short-period finishing map, the state vectors and the unit '
                 "conversions equal the report's, every Newton exit satisfies Kepler's equation to 1e-12, Kepler's equation has exactly one solution and the returned "
                 'E+omega is within 1e-12/(1-sqrt eL2) rad of it (MVT/IVT); the two remaining leaves (|1+cos i| < 1.5e-12) are proved unreachable for inclinations with '
-                'four decimals; the ISS set and a small-eccentricity set are proved to be on their paths by interval arithmetic. PARTIAL: Newton convergence within 10 '
-                'iterations, binary64 rounding is sampled; the 1 mm / 1 um/s claim itself is PROVED over the reals for a <= 2 earth radii and eL^2 <= 4/25 (every near-'
-                "earth orbit has a < 1.93): each coordinate of the returned position is within 1e-6 km, and of the returned velocity within 1e-9 km/s, of the report's "
-                "at the unique exact solution of Kepler's equation, via a compositional Lipschitz calculus (310000 km/rad, 460 (km/s)/rad) - C01_position_accuracy*: "
-                'implementation vs an independent evaluation of the report (worst 0.011 mm) and the AIAA vectors',
+                'four decimals; the ISS set and a small-eccentricity set are proved to be on their paths by interval arithmetic. The 1 mm / 1 um/s claim itself is '
+                'PROVED over the reals for EVERY answered propagation with a <= 2 earth radii and eL^2 <= 4/25 (every near-earth orbit has a < 1.93), with no '
+                'hypothesis on the Newton loop: each coordinate of the returned position is within 1e-6 km, and of the returned velocity within 1e-9 km/s, of the '
+                "report's at the unique exact solution of Kepler's equation (C01_answered_position_accuracy*), via a compositional Lipschitz calculus (310000 km/rad, "
+                '460 (km/s)/rad) and a convergence proof of the loop regenerated from source: the iterates are the second-order step, the first-step clamp is inactive,'
+                ' each step squares the error (Taylor remainder by a monotone comparison function + MVT), the sixth stopping test cannot fail, so the unchecked '
+                'eleventh exit is unreachable (C01_newton_*). PARTIAL: binary64 rounding, and convergence for eL^2 > 4/25, are sampled: implementation vs an '
+                'independent evaluation of the report (worst 0.011 mm) and the AIAA vectors',
         "design_ref": 'DESIGN.md 5/C01',
         "note": 'trusted: Coq kernel, stdlib real axioms (+ Uint63/float primitives via Interval in the example), translator (self-checked each run on outcome class '
                 'and state), Spec_SGP4.v transcription (cross-checked by the Gen=Spec proofs: a slip in D4 was caught that way). Known finding C01:aiaa:29141 (decaying'
                 ' SL-14 DEB entry of the AIAA set, 0.35 m)',
-        "technique": 'Coq proof over source-regenerated model (symbolic tracing with path enumeration, decision trees, generated conversion lemmas); field/ring; independent'
-                ' STR#3 oracle + AIAA vectors',
+        "technique": 'Coq proof over source-regenerated model (symbolic tracing with path enumeration, decision trees, generated conversion lemmas); field/ring; Coquelicot '
+                'MVT/IVT, Lipschitz calculus, quadratic-convergence analysis of the Kepler iteration; independent STR#3 oracle + AIAA vectors',
     },
     "C02": {
         "text": 'Coq theorems (no axioms) for every well-formed field record of the standard TLE column layout (a printer written from the format definition): the '
@@ -47,8 +50,8 @@ CLAIMED = {
                 'constants masked, with the skeleton the model was written from (translator/passes_skeleton.txt) and extracts its numeric constants on every run; the '
                 "model's pairing loop is proved to take the action of the source's loop body at every crossing and its slice / culmination bracket to use the source's "
                 'constants (C03_source_*)',
-        "technique": "Coq proof over a hand-written Gallina model; correspondence by replaying the implementation's own samples and recorded roots via vm_compute; dense-"
-                'scan oracle',
+        "technique": "Coq proof over a hand-written Gallina model; correspondence by replaying the implementation's own samples and recorded roots via vm_compute; "
+                'dense-scan oracle',
     },
     "C04": {
         "text": 'Coq theorems over the real-number model of Orbital.get_lonlatalt, geoloc.get_lonlatalt, astronomy.observer_position and utc2local regenerated from '
@@ -68,9 +71,9 @@ CLAIMED = {
     "C05": {
         "text": 'Coq theorems over the regenerated real-number model of Orbital.get_observer_look and the module function: both are the core formula applied to the '
                 "observer-position and GMST kernels (by conversion); elevation = asin(up-component/range) in the observer's WGS-84 east-north-up frame, the clips being"
-                ' the identity over the reals (Cauchy-Schwarz); elevation in [-90,90] and the asin argument in [-1,1] for every input; azimuth is the clockwise-from-'
-                "north angle in [0,2pi] (the property's closed [0,360] deg) (module: any direction with a horizontal component; method: north component non-zero); a "
-                "satellite on the observer's geodetic normal is at elevation exactly 90",
+                ' the identity over the reals (Cauchy-Schwarz); elevation in [-90,90] and the asin argument in [-1,1] for every input; azimuth is the '
+                "clockwise-from-north angle in [0,2pi] (the property's closed [0,360] deg) (module: any direction with a horizontal component; method: north component "
+                "non-zero); a satellite on the observer's geodetic normal is at elevation exactly 90",
         "design_ref": 'DESIGN.md 5/C05',
         "note": 'trusted: Coq kernel, stdlib real axioms, translator (self-checked each run). 1e-4 deg accuracy, finiteness in binary64 and the 5e-3 deg method/module '
                 'agreement are sampled against an independent ENU computation (incl. the exact sub-satellite point, poles, date line, antipode, geostationary '
@@ -172,9 +175,9 @@ CLAIMED = {
     },
     "C14": {
         "text": 'Coq theorems over the model of qrotate (all accepted axis/angle/shape variants, proved column-wise identical) and subpoint, regenerated from geoloc.py'
-                " on every run: equality with Rodrigues' rotation about axis/|axis| by minus the angle for every vector, non-zero axis and angle; length and inner-"
-                'product preservation; axis fixed; identity at 0 and 2pi; additivity; the subpoint lies on the (A, B) ellipsoid for every latitude value. Translator '
-                'self-check and implementation oracle against an independent Rodrigues formula',
+                " on every run: equality with Rodrigues' rotation about axis/|axis| by minus the angle for every vector, non-zero axis and angle; length and "
+                'inner-product preservation; axis fixed; identity at 0 and 2pi; additivity; the subpoint lies on the (A, B) ellipsoid for every latitude value. '
+                'Translator self-check and implementation oracle against an independent Rodrigues formula',
         "design_ref": 'DESIGN.md 5/C14',
         "note": 'trusted: Coq kernel, stdlib real axioms, translator (self-checked each run in binary64 and by Coq-Interval). Shape/broadcast semantics, the 1 m normal'
                 ' distance, geodetic_lat termination and binary64 rounding at 1e-9 are sampled',
@@ -212,10 +215,10 @@ CLAIMED = {
                 "implies no timeout and a reached timeout is TleDownloadTimeoutError; text without a line starting '1 ' yields no entries; the Space-Track case table. "
                 'Every outcome assignment over <= 5 URIs in <= 3 sources is run on the implementation under an interposed requests layer and on the model inside Coq',
         "design_ref": 'DESIGN.md 5/C17',
-        "note": 'trusted: Coq kernel, interposed requests (status_code/text, Timeout subclasses), TLE lines abstracted to 5 classes; known finding C17:body-line-'
-                'starting-with-1-not-tle is modelled faithfully and proved as C17_line1_refuted; additionally translator/gen_download.py (fail-closed AST extraction) '
-                'REGENERATES the per-URI action of fetch_plain_tle (timeout handler, status test, the two arms) on every run and checks the loop structure around it; '
-                "the model's loop is proved to be the application of that action at every URI (C17_source_*)",
+        "note": 'trusted: Coq kernel, interposed requests (status_code/text, Timeout subclasses), TLE lines abstracted to 5 classes; known finding '
+                'C17:body-line-starting-with-1-not-tle is modelled faithfully and proved as C17_line1_refuted; additionally translator/gen_download.py (fail-closed AST'
+                ' extraction) REGENERATES the per-URI action of fetch_plain_tle (timeout handler, status test, the two arms) on every run and checks the loop structure'
+                " around it; the model's loop is proved to be the application of that action at every URI (C17_source_*)",
         "technique": 'Coq proof by induction over the fetch loops + exhaustive Coq-evaluated correspondence',
     },
     "C18": {
